@@ -112,7 +112,8 @@ deriving DecidableEq, Repr
 structure Check where
   ctx : Nat
   required : Bool
-  state : RawState
+  /-- `state` of a StatusContext / `conclusion` of a CheckRun; `none` = a CheckRun that is queued or in progress (`conclusion: null`) -/
+  state : Option RawState
 deriving DecidableEq, Repr
 
 /-- what GitHub answers about one open PR (REST listing + GraphQL query) -/
@@ -220,9 +221,20 @@ def PR.fromSnap (s : PRSnap) : PR :=
   { number := s.number, sourceSha := s.headSha, authorized := s.authorized, labels := s.labels, review := none,
     batch := .none, buildState := none, intended := .pending, statuses := [] }
 
-/-- the dict built from the required checks, later entries of the same context overriding earlier ones -/
+/-- `github_status(None)` raises `ValueError`: a REQUIRED check run without a conclusion aborts `PR._update_github` -/
+def checksRaise (cs : List Check) : Bool := cs.any fun c => c.required && c.state.isNone
+
+/-- the dict built from the required checks, later entries of the same context overriding earlier ones.  Only meaningful for check
+lists with `checksRaise = false` (`step` sends the others to `evGithubPartial`): a required check without conclusion never gets here. -/
 def statusMap (cs : List Check) : List (Nat × GhStatus) :=
-  cs.foldl (fun m c => if c.required then insert c.ctx (githubStatus c.state) m else m) []
+  cs.foldl (fun m c => match c.required, c.state with
+    | true, some r => insert c.ctx (githubStatus r) m
+    | _, _ => m) []
+
+/-- the first half of `PR._update_github` (review decision), which has run when the status loop raises; returns (pr, state_changed) -/
+def PR.updateReview (p : PR) (s : PRSnap) : PR × Bool :=
+  let r := reviewOfDecision s.decision
+  if some r != p.review then ({ p with review := some r }, true) else (p, false)
 
 /-- `PR._update_github`; returns (pr, state_changed) -/
 def PR.updateGithub (p : PR) (s : PRSnap) : PR × Bool :=
@@ -442,17 +454,36 @@ def evGithubFailed (st : State) : State := { st with githubChanged := true }
 /-- the same step BEFORE commit 9f64769b0: the flag stayed cleared -/
 def evGithubFailedOld (st : State) : State := { st with githubChanged := false }
 
+/-- the PRs from the failing one on: unchanged, except that with `reviewToo` the failing PR has its review decision taken over -/
+def reviewHead (reviewToo : Bool) : List PR → List PRSnap → List PR × Bool
+  | p :: rest, s :: _ => if reviewToo then ((p.updateReview s).1 :: rest, (p.updateReview s).2) else (p :: rest, false)
+  | ps, _ => (ps, false)
+
 /-- the GitHub refresh fails at the GraphQL query of the `n`-th listed PR (`pr._update_github(gh)` raises `gidgethub.HTTPException`):
 the target sha and the PR list (`update_from_gh_json` / `from_gh_json`, `self.prs = new_prs`) have been taken over, the first `n`
 PRs have their review decision / statuses refreshed, the others keep what CI knew; the exception aborts the pass and the
 `except BaseException` around `_update_github` sets `github_changed` again -/
-def evGithubPartial (st : State) (snap : Snapshot) (n : Nat) : State :=
+def evGithubPartial (st : State) (snap : Snapshot) (n : Nat) (reviewToo : Bool) : State :=
   let shaCh := st.sha != some snap.targetSha
   let r1 := refreshPRs st.prs snap.prs
   let r2 := updateGithubAll (r1.1.take n) (snap.prs.take n)
-  { st with githubChanged := true, sha := some snap.targetSha, prs := r2.1 ++ r1.1.drop n,
-            stateChanged := st.stateChanged || shaCh || r1.2.1 || r2.2,
+  -- `reviewToo`: the exception came out of the status loop of the n-th PR (a required check run without conclusion), after its
+  -- review decision had been taken over; otherwise the GraphQL request itself failed
+  let r3 := reviewHead reviewToo (r1.1.drop n) (snap.prs.drop n)
+  { st with githubChanged := true, sha := some snap.targetSha, prs := r2.1 ++ r3.1,
+            stateChanged := st.stateChanged || shaCh || r1.2.1 || r2.2 || r3.2,
             batchChanged := st.batchChanged || r1.2.2 }
+
+/-- index of the first listed PR whose status loop raises -/
+def raisesAt : List PRSnap → Option Nat
+  | [] => none
+  | s :: t => if checksRaise s.checks then some 0 else (raisesAt t).map (· + 1)
+
+/-- `github_changed = False; _update_github(gh)` with the answers `snap`: complete, unless a required check run has no conclusion -/
+def evGithubAny (st : State) (snap : Snapshot) : State :=
+  match raisesAt snap.prs with
+  | none => evGithub st snap
+  | some j => evGithubPartial st snap j true
 
 /-- the batch refresh fails at its first request (`batch_client.list_batches(…)` of the first PR raises): the pass of `_update` is
 aborted by the exception; `batch_changed` was already cleared (nothing restores it), no PR has been touched -/
@@ -462,7 +493,7 @@ inductive Event where
   | flag (e : Entry)
   | batchFailed
   | githubFailed
-  | githubPartial (snap : Snapshot) (n : Nat)
+  | githubPartial (snap : Snapshot) (n : Nat)   -- the GraphQL request of the n-th PR fails (HTTP error)
   | github (snap : Snapshot)
   | batch
   | heal (a : Answers)
@@ -473,8 +504,8 @@ def step (fix : Bool) (st : State) : Event → State × List Out
   | .flag e => (evFlag st e, [])
   | .batchFailed => (evBatchFailed st, [])
   | .githubFailed => (evGithubFailed st, [])
-  | .githubPartial s n => (evGithubPartial st s n, [])
-  | .github s => (evGithub st s, [])
+  | .githubPartial s n => (evGithubPartial st s n false, [])
+  | .github s => (evGithubAny st s, [])
   | .batch => (evBatch fix st, [])
   | .heal a => evHeal st a
   | .done id ok => (evDone st id ok, [])
